@@ -51,6 +51,26 @@ def vec_cases():
     return out
 
 
+VECIO = {'sse2': ('release-std', 'h_vecio_sse2'), 'ssse3': ('release-std', 'h_vecio_ssse3'), 'sse41': ('release-std', 'h_vecio_sse41'),
+         'avx': ('release-std', 'h_vecio_avx'), 'avx2': ('release-std', 'h_vecio_avx2'), 'generic': ('release-nosimd', 'h_vecio_generic')}
+VSIZE = {0: 16, 3: 32, 4: 32, 5: 32, 7: 64}
+
+
+def vecio_cases(tier):
+    """Machine::read_le / read_be and write_le / write_be handed a slice whose length is NOT the vector size: the slice object has
+    exactly `len` bytes, so an access that trusts the vector size instead of the slice is an out-of-bounds access"""
+    out = []
+    for backend, (config, fname) in VECIO.items():
+        for ty, size in VSIZE.items():
+            for op in (50, 51, 52, 53):
+                lens = (size - 1, size, size + 1) if tier == 'quick' else (0, 1, size // 2, size - 1, size, size + 1, 2 * size)
+                for ln in lens:
+                    out.append(('vecio:%s:%s:%s:len=%d' % (backend, V.TYPES[ty][0], V.OPNAMES[op], ln), [config], fname,
+                                lambda ty=ty, op=op, ln=ln: [Sc('ty', 32, ty), Sc('op', 32, op), Buf('a', 64, sym=True, writable=False), Buf('p', ln, sym=True), Sc('len', 64, ln),
+                                                             Buf('out', 64, init=T.var('out0', 512))], ['out', 'p']))
+    return out
+
+
 def one(run, task):
     name, configs, fname, mkargs, outs = task
     for config in configs:
@@ -87,6 +107,19 @@ def one(run, task):
             ob.status = 'ok'
             run.add(ob)
             if r.status != 'ret':
+                # a panic / abort that is taken or not depending on a buffer ADDRESS is a result that depends on alignment
+                bad = sorted(n for n in T.support([c for c, v in r.pc])[0] if n.startswith('base:'))
+                if bad:
+                    st, model = check.pc_feasible(r.pc)
+                    ob = check.Obligation(oname + '/no-address-dependent-failure')
+                    ob.n_pairs = 1
+                    ob.status = 'ok' if st == 'unsat' else st
+                    ob.detail = r.status + ' ' + r.detail
+                    run.add(ob)
+                    if st == 'sat':
+                        what = '%s: %s is reached or not depending on the address of a caller buffer (%s = %#x): %s' % (name, r.status.split(':')[0], bad[0], model.get(bad[0], 0), r.detail[:120])
+                        run.violation('addr-fail:%s' % ':'.join(name.split(':')[:2]), what, run.write_replay('addrfail' + what, {'entry': fname, 'config': config, 'kind': 'address-dependent failure',
+                                      'path_condition': [(T.show(c)[:200], v) for c, v in r.pc], 'model': {k: hex(v) for k, v in model.items()}}))
                 continue
             # (iii) address independence: no base-address variable in any output
             for o in outs:
@@ -98,6 +131,21 @@ def one(run, task):
                 run.add(ob)
                 if bad:
                     run.violation('addr:%s' % name, '%s: the result depends on a buffer address (%s)' % (name, bad[:2]), None)
+        # (iii-b) paths that differ only in conditions on buffer addresses must produce the same outputs
+        groups = {}
+        for r in res:
+            if r.status == 'ret':
+                k = tuple((c, v) for c, v in r.pc if not any(n.startswith('base:') for n in T.support([c])[0]))
+                groups.setdefault(k, []).append(r)
+        for k, rs in groups.items():
+            if len(rs) < 2:
+                continue
+            run.extra['address_dependent_branch_groups'] = run.extra.get('address_dependent_branch_groups', 0) + 1
+            for r2 in rs[1:]:
+                pairs = [(rs[0].mem(rs[0].named[o]), r2.mem(r2.named[o])) for o in outs]
+                ob = run.equal(base + '/arm[%s]/same-result-on-address-dependent-paths' % arm_name(r2.pc), pairs, list(k))
+                if ob.status == 'sat':
+                    run.violation('addr:%s' % name, '%s: two paths selected by a buffer address give different results' % name, None)
         # (ii) declared alignment vs guaranteed alignment of caller buffers
         issues = [i for i in ex.align_issues if not i[2].startswith('alloca:') and not i[2].startswith('g:')]
         ob = check.Obligation(base + '/alignment-of-accesses-to-caller-buffers')
@@ -119,13 +167,15 @@ def chunk(run, ts):
 
 
 def body(run, a):
-    ts = cases(run.tier) + vec_cases()
+    ts = cases(run.tier) + vec_cases() + vecio_cases(run.tier)
     for c in ('release-std', 'release-nosimd'):
         module(c, run)
     # closures are not picklable: run in-process chunks through fork by indexing
     global _TASKS
     _TASKS = ts
-    check.parallel(run, by_index, [list(range(i, min(i + 6, len(ts)))) for i in range(0, len(ts), 6)])
+    nheavy = len(cases(run.tier))
+    chunks = [list(range(i, min(i + 6, nheavy))) for i in range(0, nheavy, 6)] + [list(range(i, min(i + 24, len(ts)))) for i in range(nheavy, len(ts), 24)]
+    check.parallel(run, by_index, chunks)
     # canary: the monitor must flag an out-of-bounds access - run an entry with a data object that is one byte too short
     mod = module('release-std', run)
     L = 65
@@ -143,7 +193,7 @@ _TASKS = []
 
 
 def by_index(run, idxs):
-    ts = cases(run.tier) + vec_cases()
+    ts = cases(run.tier) + vec_cases() + vecio_cases(run.tier)
     for i in idxs:
         one(run, ts[i])
 
